@@ -2,6 +2,7 @@
 (* I->S: the scope-provider calls logged during real loads, validated       *)
 (* against LoaderResolve.  One trace per load:                              *)
 (*   [sc, events: Seq of [m, r, attempt, ans], kind, names, attrs]           *)
+(* (names and attrs hold targets, as an observer of the loaded model sees)   *)
 (* Every logged call must be the TryRef step the module allows next (models  *)
 (* in repository order, references in textual order, a postponed reference   *)
 (* retried in the next round, the answer the scenario's environment gives),  *)
@@ -18,7 +19,7 @@ AttrMode == IOEnv.VT_ATTRS          \* "seq": attribute contents compared as seq
 
 ScOf(j) == [files |-> j.files, sched |-> j.sched,
             deps |-> [i \in 1..Len(j.deps) |-> Range(j.deps[i])],
-            never |-> Range(j.never), unknown |-> Range(j.unknown)]
+            never |-> Range(j.never), unknown |-> Range(j.unknown), tgt |-> j.tgt]
 
 TNone == <<>>          \* no enumerated scenarios: the scenario comes with each trace
 
@@ -36,15 +37,18 @@ AttrsMatch(T) ==
   /\ \A m \in Models :
        /\ Len(T.attrs[m]) = Len(attrs[m])
        /\ \A k \in Stmts(m) :
-            IF AttrMode = "seq" THEN T.attrs[m][k] = attrs[m][k]
-            ELSE /\ Range(T.attrs[m][k]) = Range(attrs[m][k])
+            IF AttrMode = "seq" THEN T.attrs[m][k] = AttrTargets[m][k]
+            ELSE /\ Range(T.attrs[m][k]) = Range(AttrTargets[m][k])
                  /\ Len(T.attrs[m][k]) = Len(attrs[m][k])
 
 Accepting ==
   LET T == Traces[tid] IN
   /\ l = Len(T.events) /\ Idle
   /\ outcome.kind = T.kind
-  /\ Range(outcome.names) = Range(T.names)
+  \* the error names the targets of exactly the delayed references (as a multiset)
+  /\ Len(T.names) = Len(outcome.names)
+  /\ \A t \in AllRefs : Cardinality({i \in DOMAIN T.names : T.names[i] = t})
+                         = Cardinality({i \in DOMAIN NameTargets : NameTargets[i] = t})
   /\ (T.kind = "ok" => AttrsMatch(T))
 
 TraceNext ==
